@@ -64,3 +64,28 @@ VARIANTS = [
     silent("c14-chained-compare",
            [(RG, "            if alias_index >= from_size or alias_index < 0:", "            if not (0 <= alias_index < from_size):")], P),
 ]
+
+EM14 = "src/jaqalpaq/core/algorithm/expand_macros.py"
+CB14 = "src/jaqalpaq/core/circuitbuilder.py"
+VARIANTS += [
+    # reverting fix 359688b
+    fire("c14-substituted-loop-count-unchecked",
+         [(EM14, "            iterations=self.substitute_count(loop.iterations),", "            iterations=self.visit(loop.iterations),")],
+         ("C14.4", "GateReplacer.visit_LoopStatement:substituted-count-kind"), ("C14",)),
+    fire("c14-substituted-subcircuit-count-unchecked",
+         [(EM14, "            iterations=self.substitute_count(block.iterations),", "            iterations=self.visit(block.iterations),")],
+         ("C14.4", "GateReplacer.visit_BlockStatement:substituted-count-kind"), ("C14",)),
+]
+VARIANTS += [
+    # reverting fix 26e38ab
+    fire("c14-repeated-macro-parameter-accepted",
+         [(CB14, "        if len(parameter_dict) != len(parameter_list):\n            raise JaqalError(f\"Macro {name} has a repeated parameter name\")\n", "")],
+         ("C14.2", "Builder.build_macro:repeated-parameter"), ("C14",)),
+]
+RG14b = "src/jaqalpaq/core/register.py"
+VARIANTS += [
+    # reverting fix 900b1ff
+    fire("c14-register-size-sign-unchecked",
+         [(RG14b, '        elif size is not None and size <= 0:\n            raise JaqalError(f"Register {name} cannot have size {size}.")\n', "")],
+         ("C14.4", "Register.__init__:size-positive"), ("C14",)),
+]
